@@ -4,7 +4,7 @@ use crate::common::{Finding, Run, Tier};
 use crate::natdiff::*;
 use crate::sweeps::*;
 use crate::tmpl::*;
-use serde_json::json;
+use serde_json::{json, Value};
 
 fn cap(tier: &Tier) -> u64 {
     if let Ok(s) = std::env::var("VERIF_WALL_CAP") {
@@ -204,15 +204,16 @@ pub fn c02(tier: Tier) -> i32 {
         s5_division(&plan, sink);
         s7_control(&plan, sink);
         s8_stack_single(&plan, sink);
+        // every register assignment (incl. one register in two operand positions) under all
+        // flags clear and all flags set: shortcuts keyed on operand identity
+        s2_register_identity_flags(&plan, Scope::Data, sink, true);
         if plan.tier.is_thorough() {
-            s2_register_identity(&plan, Scope::Data, sink);
             s1p_all_signatures(&plan, Scope::Data, sink);
         }
     });
     run.findings.merge(out.findings.clone());
-    let mut sweeps = vec!["S0", "S1", "S1d", "S9", "S4", "S5", "S7", "S8a"];
+    let mut sweeps = vec!["S0", "S1", "S1d", "S9", "S4", "S5", "S7", "S8a", "S2"];
     if tier.is_thorough() {
-        sweeps.push("S2");
         sweeps.push("S1'");
     }
     nat_evidence(&mut run, &census, &out, &sweeps);
@@ -255,6 +256,94 @@ pub fn c03(tier: Tier) -> i32 {
     run.finish_batch(&confirm_nat_batch)
 }
 
+/// RSP arithmetic across the 2^16 and 2^32 boundaries. The native stub's stack is one page, so
+/// no native case has RSP next to such a boundary; the rule checked here - RSP moves by exactly
+/// the architectural increment of the instruction, in 64-bit arithmetic - is the one the native
+/// comparison establishes for every stack form inside the page. Emulator only.
+pub fn rsp_rule_keys(bytes: &[u8], rsp: u64) -> Vec<(String, String)> {
+    use ax_x86::axecutor::Axecutor;
+    use ax_x86::state::registers::SupportedRegister as SR;
+    const CODEX: u64 = 0x40_0000;
+    let d = match decode_at(bytes, CODEX) {
+        Some(d) => d,
+        None => return vec![],
+    };
+    let i = d.instr;
+    let mut code = bytes[..i.len()].to_vec();
+    code.extend_from_slice(&[0x90; 16]);
+    let mut ax = match Axecutor::new(&code, CODEX, CODEX) {
+        Ok(a) => a,
+        Err(_) => return vec![],
+    };
+    let boundary = (rsp.wrapping_add(0x800)) & !0xFFFF;
+    let lo = boundary - 0x1000;
+    let mut st = vec![0u8; 0x2000];
+    for q in 0..0x400 {
+        st[q * 8..q * 8 + 8].copy_from_slice(&(CODEX + 4).to_le_bytes());
+    }
+    if ax.mem_init_area(lo, st).is_err() {
+        return vec![];
+    }
+    for k in 0..16 {
+        ax.reg_write_64(crate::emu::GPR64[k], CODEX + 4).unwrap();
+    }
+    ax.reg_write_64(SR::RSP, rsp).unwrap();
+    ax.verif_set_rflags(0);
+    let subject = format!("{:?}|{}", i.code(), form_of(&i));
+    let which = if boundary & 0xFFFF_FFFF == 0 { "2^32" } else { "2^16" };
+    match crate::emu::step(&mut ax) {
+        crate::emu::StepOut::Ok(_) => {
+            let want = rsp.wrapping_add(i.stack_pointer_increment() as i64 as u64);
+            let got = ax.reg_read_64(SR::RSP).unwrap();
+            if got != want {
+                return vec![(
+                    format!("{subject}|reg:rsp|rsp-across-{which}"),
+                    format!("`{i}` with RSP {rsp:#x} left RSP {got:#x}; the instruction moves RSP by {} in 64-bit arithmetic: {want:#x}", i.stack_pointer_increment()),
+                )];
+            }
+            vec![]
+        }
+        crate::emu::StepOut::Panic(p) => vec![(format!("{subject}|panic@{}/native_completed|rsp-across-{which}", p.tag()), format!("`{i}` with RSP {rsp:#x} panicked: {}", crate::emu::first_line(&p.msg)))],
+        crate::emu::StepOut::Err(_) => vec![],
+    }
+}
+
+fn rsp_rule_sweep(run: &mut Run, canon: &[Tmpl], census: &Census) -> u64 {
+    let mut n = 0u64;
+    let extra = extra_stack_templates(census);
+    for t in canon.iter().chain(extra.iter()) {
+        let d = match decode_at(&t.bytes, IP) {
+            Some(d) => d,
+            None => continue,
+        };
+        let i = d.instr;
+        if !i.is_stack_instruction() || has_mem(&i) || native_denied(&i) || i.stack_pointer_increment() == 0 {
+            continue;
+        }
+        // an instruction that loads RSP itself does not follow the increment rule
+        if i.op_count() > 0 && i.op0_kind() == iced_x86::OpKind::Register && i.op0_register().full_register() == iced_x86::Register::RSP && i.mnemonic() == iced_x86::Mnemonic::Pop {
+            continue;
+        }
+        for boundary in [0x6001_0000u64, 0x1_0000_0000] {
+            for off in [-16i64, -8, -4, -2, -1, 0, 1, 2, 4, 6, 7, 8, 16] {
+                let rsp = boundary.wrapping_add(off as u64);
+                n += 1;
+                for (key, what) in rsp_rule_keys(&t.bytes, rsp) {
+                    let bytes = t.bytes.clone();
+                    run.findings.add(&key, || what.clone(), || json!({"engine": "rsp-rule", "bytes": crate::common::hex(&bytes), "rsp": format!("{rsp:#x}")}));
+                }
+            }
+        }
+    }
+    n
+}
+
+pub fn rsp_rule_replay(w: &Value) -> Vec<String> {
+    let bytes = crate::common::unhex(w["bytes"].as_str().unwrap_or(""));
+    let rsp = u64::from_str_radix(w["rsp"].as_str().unwrap_or("0").trim_start_matches("0x"), 16).unwrap_or(0);
+    rsp_rule_keys(&bytes, rsp).into_iter().map(|k| k.0).collect()
+}
+
 pub fn c04(tier: Tier) -> i32 {
     let mut run = Run::new("C04", tier.clone());
     let census = run_census();
@@ -273,11 +362,23 @@ pub fn c04(tier: Tier) -> i32 {
         s8b_programs(&plan, maxlen, sink);
     });
     run.findings.merge(out.findings.clone());
+    let rule_cases = rsp_rule_sweep(&mut run, &canon, &census);
     nat_evidence(&mut run, &census, &out, &["S0", "S8a", "S8b"]);
     run.cov("program_max_length", json!(maxlen));
+    run.cov("rsp_increment_rule_cases_across_2^16_and_2^32", json!(rule_cases));
     generic_guards(&mut run, &out, 10_000);
+    run.guard("rsp-rule-cases", rule_cases >= 200, format!("{rule_cases} emulator-only cases next to the 2^16 / 2^32 boundaries"));
     run.assume("programs: the native CPU generates the reachable states; each next transition is compared from the native state, so exploration continues past a divergence");
-    run.finish_batch(&confirm_nat_batch)
+    run.assume("RSP next to a 2^16 / 2^32 boundary: emulator only, against the increment rule (iced stack_pointer_increment, 64-bit arithmetic) that the native comparison establishes inside the stack page");
+    run.finish_batch(&|ws: &[Value]| {
+        let mut r = confirm_nat_batch(ws);
+        for (n, w) in ws.iter().enumerate() {
+            if w["engine"] == "rsp-rule" {
+                r[n] = Ok(rsp_rule_replay(w));
+            }
+        }
+        r
+    })
 }
 
 pub fn c05(tier: Tier) -> i32 {
